@@ -243,17 +243,27 @@ def _entry_contexts(program: Program, run: Run) -> None:
                     forced.setdefault(k, set()).add(part.ctx.fields[k])
         force = {k: conv(next(iter(vs))) for k, vs in forced.items() if len(vs) == 1 and isinstance(next(iter(vs)), (Const, EnumV))}
         policy = {k: force.get(k, rec[k]) for k in CONVENTION_FIELDS}
+        default_rec = ctxs.get("Query") or next(iter(ctxs.values()))
+
+        def deliver(v):
+            """value of a context-field expression at the operand slot of str(<set operation>)"""
+            if isinstance(v, (Const, EnumV)):
+                return conv(v)
+            if isinstance(v, (Inh, InhOr)):
+                return default_rec[v.name]          # str() starts from the default context
+            if isinstance(v, Sym) and v.kind == "attr" and "QUERY_CLS.SQL_CONTEXT" in show(v) and v.args[1] in rec:
+                return rec[v.args[1]]
+            if isinstance(v, Sym) and v.kind == "op" and v.args and v.args[0] == "or":
+                r = None
+                for x in v.args[1:]:
+                    r = deliver(x)
+                    if r:
+                        return r
+                return r
+            raise AnalysisError(f"unsupported construct: _SetOperation.__str__ delivers a context field computed as {show(v)[:80]}")
         delivered = {}
         for k in CONVENTION_FIELDS:
-            v = slot.ctx.fields[k]
-            if k in force:
-                delivered[k] = force[k]
-            elif isinstance(v, (Const, EnumV)):
-                delivered[k] = conv(v)
-            elif isinstance(v, Sym) and v.kind == "attr" and "QUERY_CLS.SQL_CONTEXT" in show(v) and v.args[1] in rec:
-                delivered[k] = rec[v.args[1]]
-            else:
-                raise AnalysisError(f"unsupported construct: _SetOperation.__str__ delivers ctx.{k} = {show(v)[:80]}")
+            delivered[k] = force[k] if k in force else deliver(slot.ctx.fields[k])
         # the alias delimiter actually written is `alias_quote_char or quote_char` (utils.format_alias_sql)
         for d in (policy, delivered):
             d["alias_quote_char"] = d["alias_quote_char"] or d["quote_char"]
